@@ -84,7 +84,7 @@ def generate(rng, idx, tier, variant):
             ops.append({'op': 'add_variable', 'name': f'N{len(ops)}', 'v': rng.choice(S.DYADS)})
         elif rng.random() < 0.2:
             ops.append({'op': 'poke', 'name': rng.choice(names), 'pos': rng.randrange(n), 'v': rng.choice(S.DYADS)})
-    return {'spec': spec, 'ops': ops}
+    return {'spec': spec, 'ops': ops, 'np_err': rng.choice(['default'] * 6 + ['ignore', 'warn', 'raise', 'raise'])}
 
 
 def build_triplet(fsic, spec):
